@@ -161,8 +161,10 @@ def reference_greedy(P, lab, met, d, keep_greater):
 # ---------------------------------------------------------------------------------------------------
 def sq_lattice_dist(A, B):
     """exact integer squared distances between voxel index arrays (len(A), len(B))"""
-    d = A[:, None, :].astype(np.int64) - B[None, :, :].astype(np.int64)
-    return (d * d).sum(axis=2)
+    A = np.asarray(A, dtype=np.int64)
+    B = np.asarray(B, dtype=np.int64)
+    # |a|^2 + |b|^2 - 2 a.b : integer arithmetic, exact, no (m,k,3) temporary
+    return (A * A).sum(axis=1)[:, None] + (B * B).sum(axis=1)[None, :] - 2 * (A @ B.T)
 
 
 def peaks_separated(peaks, diameter):
